@@ -1,6 +1,82 @@
 package main
 
+import (
+	"bytes"
+	"context"
+	"encoding/json"
+	"os"
+	"os/exec"
+	"path/filepath"
+	"strings"
+	"time"
+)
+
+type driverSpec struct {
+	Pkg    string   `json:"pkg"`    // package directory relative to the repo root
+	File   string   `json:"file"`   // driver source under /verif/replay
+	Run    string   `json:"run"`    // test name
+	Race   bool     `json:"race"`
+	Kinds  []string `json:"kinds"`  // obligation kinds this driver can replay (empty = all)
+	Search bool     `json:"search"` // driver also performs a bounded search when the model does not replay
+}
+
+// runReplayDriver replays the verifier's counterexample (or a bounded search for a
+// failing input) against the real code with `go test -overlay`; nothing is written to the repo.
 func runReplayDriver(e *Engine, verif, repo, prop string, o *Obligation, rec map[string]interface{}) bool {
-	rec["replay"] = "no replay driver for this obligation"
-	return false
+	data, err := os.ReadFile(filepath.Join(verif, "replay", "drivers.json"))
+	if err != nil {
+		rec["replay"] = "no replay drivers registered"
+		return false
+	}
+	var drivers map[string]driverSpec
+	if err := json.Unmarshal(data, &drivers); err != nil {
+		rec["replay"] = "drivers.json: " + err.Error()
+		return false
+	}
+	d, ok := drivers[o.Fn]
+	if !ok {
+		rec["replay"] = "no replay driver for function " + o.Fn
+		return false
+	}
+	scratch, err := os.MkdirTemp("/var/tmp", "govc-replay.")
+	if err != nil {
+		rec["replay"] = err.Error()
+		return false
+	}
+	defer os.RemoveAll(scratch)
+	wit := map[string]interface{}{"obligation": o.Name, "function": o.Fn, "kind": o.Kind, "values": o.Values, "verdict": o.Verdict}
+	wdata, _ := json.Marshal(wit)
+	wpath := filepath.Join(scratch, "witness.json")
+	os.WriteFile(wpath, wdata, 0o644)
+	target := filepath.Join(repo, d.Pkg, "zz_govc_replay_test.go")
+	ov := map[string]map[string]string{"Replace": {target: filepath.Join(verif, "replay", d.File)}}
+	ovdata, _ := json.Marshal(ov)
+	ovpath := filepath.Join(scratch, "overlay.json")
+	os.WriteFile(ovpath, ovdata, 0o644)
+	args := []string{"test", "-overlay", ovpath, "-vet=off", "-count=1", "-timeout", "90s", "-run", "^" + d.Run + "$"}
+	if d.Race {
+		args = append(args, "-race")
+	}
+	args = append(args, "./"+d.Pkg)
+	ctx, cancel := context.WithTimeout(context.Background(), 180*time.Second)
+	defer cancel()
+	cmd := exec.CommandContext(ctx, "go", args...)
+	cmd.Dir = repo
+	cmd.Env = append(envWithout("GOFLAGS"), "GOFLAGS=-mod=mod", "GOPROXY=off", "GOSUMDB=off", "GOTOOLCHAIN=local", "GOVC_WITNESS="+wpath)
+	var out bytes.Buffer
+	cmd.Stdout = &out
+	cmd.Stderr = &out
+	runErr := cmd.Run()
+	text := out.String()
+	rec["replay_cmd"] = "go " + strings.Join(args, " ") + "   (GOVC_WITNESS=<witness.json>, cwd " + repo + ")"
+	rec["replay_output"] = truncate(text, 6000)
+	confirmed := runErr != nil && strings.Contains(text, "REPLAY-FAIL")
+	if confirmed {
+		rec["replay"] = "failing input exhibited on the real code"
+	} else if runErr != nil {
+		rec["replay"] = "replay driver did not run cleanly: " + runErr.Error()
+	} else {
+		rec["replay"] = "the model did not reproduce a failure on the real code (and the bounded search, if any, found none)"
+	}
+	return confirmed
 }
